@@ -1151,13 +1151,20 @@ class FunctionScope(Scope):
         elif state is VisitorState.check_names:
             if key not in self.usage_to_definition_nodes:
                 return self.referencing_value_vars[varname], EMPTY_ORIGIN
-            else:
-                definers = self.usage_to_definition_nodes[key]
+            definers = self.usage_to_definition_nodes[key]
+            if definers and all(definer is _UNINITIALIZED for definer in definers):
+                return self.referencing_value_vars[varname], EMPTY_ORIGIN
         else:
             if varname in self.name_to_current_definition_nodes:
                 definers = self.name_to_current_definition_nodes[varname]
                 self.usage_to_definition_nodes[key] += definers
             else:
+                # The name is unbound on every path seen so far. Record that, so that
+                # another visit of the same node (a loop body is visited twice) that
+                # does find definitions cannot hide it. A lookup from a nested scope
+                # happens when that scope runs, not here.
+                if not from_parent_scope:
+                    self.usage_to_definition_nodes[key].append(_UNINITIALIZED)
                 return self.referencing_value_vars[varname], EMPTY_ORIGIN
         return self._get_value_from_nodes(definers, ctx), self._resolve_origin(definers)
 
